@@ -9,7 +9,7 @@ from . import common
 
 NAME = "U-dashd"
 TOOL = "verus"
-PROPS = ["C08", "C16", "C06"]
+PROPS = ["C08", "C16", "C06", "C07"]
 RLIMIT = 50
 TRUSTED = ["verus 0.2026.09.13 + z3", "str::splitn(n, c) / str::split(c): the pieces between occurrences of c, at most n of them, the last one being the unsplit remainder (specification of the shim iterator, from the std documentation)",
            "vstd: Option::unwrap, Option::unwrap_or"]
@@ -41,13 +41,18 @@ pub struct Error { pub e: u8 }
 pub uninterp spec fn is_ident(s: Seq<char>) -> bool;
 #[verifier::external_body] pub fn is_macro_name(s: &str) -> (r: bool) ensures r == is_ident(s@) { unimplemented!() }
 // the preprocessor context: what was defined last
-pub struct Context { pub name: Ghost<Seq<char>>, pub value: Ghost<Seq<char>>, pub n: Ghost<int> }
+pub struct Context { pub name: Ghost<Seq<char>>, pub value: Ghost<Seq<char>>, pub n: Ghost<int>, pub names: Ghost<Set<Seq<char>>> }
 impl Context {
+    #[verifier::external_body] pub fn get_macro(&self, name: &str) -> (r: Option<&String>) ensures (r is Some) == self.names@.contains(name@) { unimplemented!() }
+    #[verifier::external_body] pub fn undefine(&mut self, name: &str) requires old(self).names@.contains(name@),
+        ensures final(self).names@ == old(self).names@.remove(name@), final(self).n@ == old(self).n@ - 1, final(self).name == old(self).name, final(self).value == old(self).value { unimplemented!() }
     // the name becomes part of a regular expression (`\\bNAME\\b`, unwrapped): it has to be an identifier
     // the value is written on one line of the preprocessed text: a line break in it would leave the line table short (a panic when an error is located)
     #[verifier::external_body] pub fn define(&mut self, name: &str, value: &str) requires is_ident(name@), //@ C16,C08:dash-d-name-is-an-identifier
             !occurs(value@, '\\n'), //@ C16,C06:dash-d-value-has-no-line-break
-        ensures final(self).name@ == name@, final(self).value@ == value@, final(self).n@ == old(self).n@ + 1 { unimplemented!() }
+            // a name is in the tables once: a second entry would survive an #undef and shadow a later #define (the first entry is the one applied)
+            !old(self).names@.contains(name@), //@ C08,C07:dash-d-defines-a-name-that-is-not-defined
+        ensures final(self).name@ == name@, final(self).value@ == value@, final(self).n@ == old(self).n@ + 1, final(self).names@ == old(self).names@.insert(name@) { unimplemented!() }
 }
 """
 
@@ -58,6 +63,10 @@ def candidates(f):
                                   ("N=3", "r = N;", 3, "plain value"), ("FLAG", "r = FLAG;", 1, "no value")):
         out.append({"source": "unsigned char r;\nvoid main() { %s }\n" % body, "args": ["-O0", "-D", opt], "expect": {"panic": False},
                     "simulate": {"init": {}, "expect": {"r": want}, "stack_empty": True}, "contract_only": True, "note": "-D %s: %s" % (opt, note)})
+    out.append({"source": "unsigned char r;\n#undef V\n#define V 0\nvoid main() {\n#if V\nr = 2;\n#else\nr = 1;\n#endif\n}\n", "args": ["-O0", "-D", "V=1", "-D", "V=1"], "expect": {"panic": False},
+                "simulate": {"init": {}, "expect": {"r": 1}, "stack_empty": True}, "contract_only": True, "note": "-D V=1 twice, then #undef V / #define V 0 in the source"})
+    out.append({"source": "unsigned char r;\nvoid main() { r = V; }\n", "args": ["-O0", "-D", "V=0", "-D", "V=1"], "expect": {"panic": False},
+                "simulate": {"init": {}, "expect": {"r": 1}, "stack_empty": True}, "contract_only": True, "note": "-D V=0 -D V=1: the last one wins"})
     out.append({"source": "NL\nNL\nvoid main() { x = 1; }\n", "args": ["-O0", "-D", "NL=\n\n\n"], "expect": {"panic": False}, "contract_only": True, "note": "-D value with line breaks, then an error to locate"})
     return out
 
@@ -85,7 +94,8 @@ def build(repo):
     fn = """
 // R8: body of the loop over the -D options, verbatim up to R15
 pub fn dash_d(context: &mut Context, %(v)s: &String) -> (res: Result<(), Error>)
-    ensures res is Ok ==> final(context).n@ == old(context).n@ + 1, //@ C08:dash-d-defines-one-macro
+    ensures res is Ok ==> final(context).n@ == old(context).n@ + (if old(context).names@.contains(name_of(%(v)s@)) { 0int } else { 1int }), //@ C08:dash-d-defines-one-macro
+        res is Ok ==> final(context).names@ =~= old(context).names@.insert(name_of(%(v)s@)), //@ C08,C07:dash-d-name-is-defined-afterwards
         res is Ok ==> final(context).name@ == name_of(%(v)s@), //@ C08:dash-d-name-is-the-text-before-the-first-equals
         res is Ok ==> final(context).value@ == value_of(%(v)s@), //@ C08:dash-d-value-is-everything-after-the-first-equals
         res is Err ==> final(context).n@ == old(context).n@,
